@@ -14,6 +14,7 @@ import (
 	"sort"
 	"strings"
 	"sync"
+	"sync/atomic"
 	"testing"
 	"time"
 
@@ -57,6 +58,12 @@ const c10Interval = time.Second
 // c10Floor is the goroutine count of the idle test process (no wheel alive).
 var c10Floor int
 
+// c10PanicMod > 0: the execute callback panics for values divisible by it; c10Panics counts them.
+var (
+	c10PanicMod int
+	c10Panics   int64
+)
+
 func newC10Wheel(slots int) (*c10Wheel, error) {
 	w := &c10Wheel{tk: &vkTicker{c: make(chan time.Time)}}
 	// the previous scenario's run loop exits asynchronously after Stop: wait for the
@@ -72,6 +79,12 @@ func newC10Wheel(slots int) (*c10Wheel, error) {
 		w.mu.Lock()
 		w.fires = append(w.fires, c10Fire{k: k.(int), v: v.(int), tick: w.tick})
 		w.mu.Unlock()
+		// hostile callback: panics (after the fire has been recorded) for some values; tasks due in
+		// the same tick must still fire exactly once
+		if c10PanicMod > 0 && v.(int)%c10PanicMod == 0 {
+			atomic.AddInt64(&c10Panics, 1)
+			panic("c10: hostile execute callback")
+		}
 	}, w.tk)
 	if err != nil {
 		return nil, err
@@ -324,6 +337,7 @@ func c10Digest(sc c10Scenario) string { return vk.Digest(vk.JSON(sc)) }
 func TestVerifC10Systematic(t *testing.T) {
 	m := vk.New(t, "C10", "complete enumeration: slots 1..5 x phase x d1 x wait<d1 x d2 (1..3 revolutions) x {MoveTimer, SetTimer on live key}; then ticks until past the due tick; fire must happen exactly on the due tick")
 	defer m.Done()
+	c10PanicMod = 0
 	idx := 0
 	maxSlots := 5
 	for slots := 1; slots <= maxSlots; slots++ {
@@ -438,6 +452,8 @@ func TestVerifC10Random(t *testing.T) {
 	defer m.Done()
 	n := vk.N(2500, 150000)
 	r := m.Rand("random")
+	c10PanicMod = 7 // every seventh value makes the execute callback panic
+	defer func() { c10PanicMod = 0; m.Count("execute_callback_panics", atomic.LoadInt64(&c10Panics)) }()
 	kinds := map[string]int64{}
 	for idx := 1; idx <= n; idx++ {
 		choices := []int{1, 2, 3, 5, 8}
@@ -484,11 +500,19 @@ func TestVerifC10Random(t *testing.T) {
 func TestVerifC10LongHistory(t *testing.T) {
 	m := vk.New(t, "C10", "long histories on one wheel: 24k-40k cycles of SetTimer(unique key) / occasional MoveTimer, RemoveTimer / tick, with 5 or 1500 long-lived entries kept pending, ending in a run-out; exercises the timer index across its internal migrations; same tick-exact oracle")
 	defer m.Done()
-	n := vk.N(2, 24)
+	n := vk.N(3, 24)
 	r := m.Rand("long")
+	c10PanicMod = 211
+	defer func() { c10PanicMod = 0 }()
 	for idx := 1; idx <= n; idx++ {
 		slots := []int{7, 60, 300}[r.Intn(3)]
-		resident := []int{5, 1500}[idx%2]
+		resident := []int{1500, 5, 1500}[idx%3]
+		// variant 2: the resident set shrinks below the index's copy threshold (1000) after more than
+		// 10000 deletions, i.e. the first migration happens while short-lived entries sit in the new map
+		shrinkAt := -1
+		if idx%3 == 2 {
+			shrinkAt = 11000 + r.Intn(3000)
+		}
 		cycles := 24000 + r.Intn(16001)
 		var ops []c10Op
 		key := 1000
@@ -498,7 +522,13 @@ func TestVerifC10LongHistory(t *testing.T) {
 		}
 		var recent []int
 		due := map[int]int{} // generator-side due tick of the short-lived keys (cycle i starts at tick i)
+		removedResidents := map[int]bool{}
 		for i := 0; i < cycles; i++ {
+			if shrinkAt >= 0 && i >= shrinkAt && i < shrinkAt+700 {
+				k := 1001 + (i - shrinkAt)
+				ops = append(ops, c10Op{Op: "remove", K: k})
+				removedResidents[k] = true
+			}
 			key++
 			d := 1 + r.Intn(slots+3)
 			ops = append(ops, c10Op{Op: "set", K: key, V: key, D: int64(d) * 1000})
